@@ -19,9 +19,9 @@ Definition tO s := mkTok KOp false s true.   Definition tOw s := mkTok KOp true 
 Definition tP s := mkTok KPunct false s true. Definition tPw s := mkTok KPunct true s true.
 
 (* a #define / -D of the case format: definition tokens for M, structure for S *)
-Definition def_obj (viaD : bool) (mt : list tok) (name : string) (body : list tok) : cmacro :=
+Definition def_obj (viaD : via) (mt : list tok) (name : string) (body : list tok) : cmacro :=
   mkC viaD mt name false [] false body.
-Definition def_fun (viaD : bool) (mt : list tok) (name : string) (ps : list string) (va : bool) (body : list tok) : cmacro :=
+Definition def_fun (viaD : via) (mt : list tok) (name : string) (ps : list string) (va : bool) (body : list tok) : cmacro :=
   mkC viaD mt name true ps va body.
 
 Definition S_ok (cs : list cmacro) (input : list tok) : Prop :=
@@ -38,29 +38,24 @@ Ltac closed_agree := split; [eexists; vm_compute; reflexivity | vm_compute; refl
 (* (a) known-finding classes                                           *)
 (* ------------------------------------------------------------------ *)
 
-(* -DA===  (A defined as ==) *)
-Definition w_dashD := [def_obj true [tI "A"; tO "=="; tO "="] "A" [tO "=="]].
-Lemma refuted_dashD_equals : disagree w_dashD [tI "A"].
-Proof. closed_disagree. Qed.
-
 (* #define H(...) #__VA_ARGS__     H(7 ,8) *)
 Definition w_vacomma :=
-  [def_fun false [tIw "H"; tP "("; tP "."; tP "."; tP "."; tP ")"; tOw "#"; tI "__VA_ARGS__"] "H" ["__VA_ARGS__"] true
+  [def_fun ViaDefine [tIw "H"; tP "("; tP "."; tP "."; tP "."; tP ")"; tOw "#"; tI "__VA_ARGS__"] "H" ["__VA_ARGS__"] true
            [tO "#"; tI "__VA_ARGS__"]].
 Lemma refuted_variadic_comma_white : disagree w_vacomma [tI "H"; tP "("; tN "7"; tPw ","; tN "8"; tP ")"].
 Proof. closed_disagree. Qed.
 
 (* #define G(x,y) #y x     G(1,x) *)
 Definition w_resub :=
-  [def_fun false [tIw "G"; tP "("; tI "x"; tP ","; tI "y"; tP ")"; tOw "#"; tI "y"; tIw "x"] "G" ["x"; "y"] false
+  [def_fun ViaDefine [tIw "G"; tP "("; tI "x"; tP ","; tI "y"; tP ")"; tOw "#"; tI "y"; tIw "x"] "G" ["x"; "y"] false
            [tO "#"; tI "y"; tIw "x"]].
 Lemma refuted_operand_resubstituted : disagree w_resub [tI "G"; tP "("; tN "1"; tP ","; tI "x"; tP ")"].
 Proof. closed_disagree. Qed.
 
 (* #define F(x,y) x y   #define S(x) #x     S(F(1)) *)
 Definition w_operand :=
-  [def_fun false [tIw "F"; tP "("; tI "x"; tP ","; tI "y"; tP ")"; tIw "x"; tIw "y"] "F" ["x"; "y"] false [tI "x"; tIw "y"];
-   def_fun false [tIw "S"; tP "("; tI "x"; tP ")"; tOw "#"; tI "x"] "S" ["x"] false [tO "#"; tI "x"]].
+  [def_fun ViaDefine [tIw "F"; tP "("; tI "x"; tP ","; tI "y"; tP ")"; tIw "x"; tIw "y"] "F" ["x"; "y"] false [tI "x"; tIw "y"];
+   def_fun ViaDefine [tIw "S"; tP "("; tI "x"; tP ")"; tOw "#"; tI "x"] "S" ["x"] false [tO "#"; tI "x"]].
 Lemma refuted_operand_only_expanded :
   disagree w_operand [tI "S"; tP "("; tI "F"; tP "("; tN "1"; tP ")"; tP ")"].
 Proof. closed_disagree. Qed.
@@ -69,8 +64,8 @@ Proof. closed_disagree. Qed.
 Fixpoint rep (n : nat) : string := match n with O => "a" | S k => String "a" (rep k) end.
 Fixpoint chain (i n : nat) : list cmacro :=
   match n with
-  | O => [def_obj false [tIw (rep i); tNw "1"] (rep i) [tN "1"]]
-  | S k => def_obj false [tIw (rep i); tIw (rep (S i))] (rep i) [tI (rep (S i))] :: chain (S i) k
+  | O => [def_obj ViaDefine [tIw (rep i); tNw "1"] (rep i) [tN "1"]]
+  | S k => def_obj ViaDefine [tIw (rep i); tIw (rep (S i))] (rep i) [tI (rep (S i))] :: chain (S i) k
   end.
 (* max_level - 1 macros nested = max_level streams on the stack *)
 Lemma refuted_depth_limit : disagree (chain 0 (Nat.pred (Nat.pred Gen.C03_tables.max_level))) [tI "a"].
@@ -96,8 +91,18 @@ Definition was_wrong (mk : list cmacro -> list tok -> data) (cs : list cmacro) (
   S_ok cs input /\ mk cs input <> run_S_case cs input /\ run_M_case cs input = run_S_case cs input.
 Ltac closed_was := split; [eexists; vm_compute; reflexivity | split; [vm_compute; discriminate | vm_compute; reflexivity]].
 
+(* -DA===  (A defined as ==): the original parser saw A, ==, = *)
+Lemma original_dashD_equals :
+  S_ok [def_obj ViaDorig [tI "A"; tO "=="; tO "="] "A" [tO "=="]] [tI "A"]
+  /\ run_M_case [def_obj ViaDorig [tI "A"; tO "=="; tO "="] "A" [tO "=="]] [tI "A"]
+     <> run_S_case [def_obj ViaDorig [tI "A"; tO "=="; tO "="] "A" [tO "=="]] [tI "A"]
+  /\ agree [def_obj (ViaD 1 true) [tI "A"; tOw "=="] "A" [tO "=="]] [tI "A"].
+Proof.
+  split; [eexists; vm_compute; reflexivity|]. split; [vm_compute; discriminate|]. closed_agree.
+Qed.
+
 (* #define S(x) #x     S( a) *)
-Definition w_str := [def_fun false [tIw "S"; tP "("; tI "x"; tP ")"; tOw "#"; tI "x"] "S" ["x"] false [tO "#"; tI "x"]].
+Definition w_str := [def_fun ViaDefine [tIw "S"; tP "("; tI "x"; tP ")"; tOw "#"; tI "x"] "S" ["x"] false [tO "#"; tI "x"]].
 Lemma original_leading_blank :
   was_wrong (run_M_with true cur_cat_fix cur_str_white cur_base cur_rescan cur_va_fix)
             w_str [tI "S"; tP "("; tIw "a"; tP ")"].
@@ -105,7 +110,7 @@ Proof. closed_was. Qed.
 
 (* #define F(x,y) x##y     F(a,) *)
 Definition w_cat :=
-  [def_fun false [tIw "F"; tP "("; tI "x"; tP ","; tI "y"; tP ")"; tIw "x"; tO "##"; tI "y"] "F" ["x"; "y"] false
+  [def_fun ViaDefine [tIw "F"; tP "("; tI "x"; tP ","; tI "y"; tP ")"; tIw "x"; tO "##"; tI "y"] "F" ["x"; "y"] false
            [tI "x"; tO "##"; tI "y"]].
 Lemma original_empty_paste_operand :
   was_wrong (run_M_with cur_lead false cur_str_white cur_base cur_rescan cur_va_fix)
@@ -114,7 +119,7 @@ Proof. closed_was. Qed.
 
 (* #define F(x,y,z) x##y##z     F(,,1) *)
 Definition w_cat3 :=
-  [def_fun false [tIw "F"; tP "("; tI "x"; tP ","; tI "y"; tP ","; tI "z"; tP ")"; tIw "x"; tO "##"; tI "y"; tO "##"; tI "z"]
+  [def_fun ViaDefine [tIw "F"; tP "("; tI "x"; tP ","; tI "y"; tP ","; tI "z"; tP ")"; tIw "x"; tO "##"; tI "y"; tO "##"; tI "z"]
            "F" ["x"; "y"; "z"] false [tI "x"; tO "##"; tI "y"; tO "##"; tI "z"]].
 Lemma original_two_empty_paste_operands :
   was_wrong (run_M_with cur_lead false cur_str_white cur_base cur_rescan cur_va_fix)
@@ -124,13 +129,13 @@ Proof. closed_was. Qed.
 (* #define None 1     None *)
 Lemma original_macro_named_None :
   was_wrong (run_M_with cur_lead cur_cat_fix cur_str_white (Some "None") cur_rescan cur_va_fix)
-            [def_obj false [tIw "None"; tNw "1"] "None" [tN "1"]] [tI "None"].
+            [def_obj ViaDefine [tIw "None"; tNw "1"] "None" [tN "1"]] [tI "None"].
 Proof. closed_was. Qed.
 
 (* #define f(a) a*g   #define g(a) f(a)     f(2)(9) *)
 Definition w_fg :=
-  [def_fun false [tIw "f"; tP "("; tI "a"; tP ")"; tIw "a"; tO "*"; tI "g"] "f" ["a"] false [tI "a"; tO "*"; tI "g"];
-   def_fun false [tIw "g"; tP "("; tI "a"; tP ")"; tIw "f"; tP "("; tI "a"; tP ")"] "g" ["a"] false [tI "f"; tP "("; tI "a"; tP ")"]].
+  [def_fun ViaDefine [tIw "f"; tP "("; tI "a"; tP ")"; tIw "a"; tO "*"; tI "g"] "f" ["a"] false [tI "a"; tO "*"; tI "g"];
+   def_fun ViaDefine [tIw "g"; tP "("; tI "a"; tP ")"; tIw "f"; tP "("; tI "a"; tP ")"] "g" ["a"] false [tI "f"; tP "("; tI "a"; tP ")"]].
 Lemma original_rescan_following_source :
   was_wrong (run_M_with cur_lead cur_cat_fix cur_str_white cur_base true cur_va_fix)
             w_fg [tI "f"; tP "("; tN "2"; tP ")"; tP "("; tN "9"; tP ")"].
@@ -138,16 +143,16 @@ Proof. closed_was. Qed.
 
 (* #define LP (   #define F(x) x   #define X F LP 1 )     X *)
 Definition w_lp :=
-  [def_obj false [tIw "LP"; tPw "("] "LP" [tP "("];
-   def_fun false [tIw "F"; tP "("; tI "x"; tP ")"; tIw "x"] "F" ["x"] false [tI "x"];
-   def_obj false [tIw "X"; tIw "F"; tIw "LP"; tNw "1"; tPw ")"] "X" [tI "F"; tIw "LP"; tNw "1"; tPw ")"]].
+  [def_obj ViaDefine [tIw "LP"; tPw "("] "LP" [tP "("];
+   def_fun ViaDefine [tIw "F"; tP "("; tI "x"; tP ")"; tIw "x"] "F" ["x"] false [tI "x"];
+   def_obj ViaDefine [tIw "X"; tIw "F"; tIw "LP"; tNw "1"; tPw ")"] "X" [tI "F"; tIw "LP"; tNw "1"; tPw ")"]].
 Lemma original_rescan_paren_indirection :
   was_wrong (run_M_with cur_lead cur_cat_fix cur_str_white cur_base true cur_va_fix) w_lp [tI "X"].
 Proof. closed_was. Qed.
 
 (* #define LOG(...) 0     LOG(1) *)
 Definition w_log :=
-  [def_fun false [tIw "LOG"; tP "("; tP "."; tP "."; tP "."; tP ")"; tNw "0"] "LOG" ["__VA_ARGS__"] true [tN "0"]].
+  [def_fun ViaDefine [tIw "LOG"; tP "("; tP "."; tP "."; tP "."; tP ")"; tNw "0"] "LOG" ["__VA_ARGS__"] true [tN "0"]].
 Lemma original_variadic_unused :
   was_wrong (run_M_with cur_lead cur_cat_fix cur_str_white cur_base cur_rescan false)
             w_log [tI "LOG"; tP "("; tN "1"; tP ")"].
@@ -155,8 +160,8 @@ Proof. closed_was. Qed.
 
 (* #define S(x) #x   #define T(x) S(a #x)     T(b) *)
 Definition w_tb :=
-  [def_fun false [tIw "S"; tP "("; tI "x"; tP ")"; tOw "#"; tI "x"] "S" ["x"] false [tO "#"; tI "x"];
-   def_fun false [tIw "T"; tP "("; tI "x"; tP ")"; tIw "S"; tP "("; tI "a"; tOw "#"; tI "x"; tP ")"] "T" ["x"] false
+  [def_fun ViaDefine [tIw "S"; tP "("; tI "x"; tP ")"; tOw "#"; tI "x"] "S" ["x"] false [tO "#"; tI "x"];
+   def_fun ViaDefine [tIw "T"; tP "("; tI "x"; tP ")"; tIw "S"; tP "("; tI "a"; tOw "#"; tI "x"; tP ")"] "T" ["x"] false
            [tI "S"; tP "("; tI "a"; tOw "#"; tI "x"; tP ")"]].
 Lemma original_string_white :
   was_wrong (run_M_with cur_lead cur_cat_fix false cur_base cur_rescan cur_va_fix)
